@@ -80,8 +80,8 @@ def chk_flux_triple(case, acc, seed):
     import lentil
     rad = sys.modules['lentil.radiometry']
     a, b, c = case['units']
-    waves = np.array([200e-9, 551e-9, 1.3e-6, 9.7e-6])
-    fluxes = np.array([1e-3, 2.5, 4e7, 1.0])
+    waves = np.array([1e-10, 3e-8, 1.1e-7, 200e-9, 551e-9, 1.3e-6, 9.7e-6, 1e-3, 2.0])       # X-ray to radio
+    fluxes = np.array([3.0, 0.125, 7.0, 1e-3, 2.5, 4e7, 1.0, 1e-12, 5.0])
     try:
         ab = rad.Unit(a).to(fluxes, b, waves)
         abc = rad.Unit(b).to(ab, c, waves)
@@ -420,11 +420,44 @@ def t_extra(arg, acc):
             chk_vegamag({'kind': 'vegamag', 'band': band, 'wu0': wu, 'vu': 'photlam'}, acc, seed)
 
 
+def chk_blackbody(case, acc, seed):
+    """a Blackbody object carries the Planck radiance in the units it was asked for, and samples it in any wavelength unit"""
+    import sys
+    rad = sys.modules['lentil.radiometry']
+    wu, vu, T = case['wu'], case['vu'], case['T']
+    lam_m = np.array([3.1e-7, 5.5e-7, 1e-6, 2.2e-6, 1e-5])
+    wave = lam_m / IN_M[CANON[wu]]
+    try:
+        bb = rad.Blackbody(wave, T, waveunit=wu, valueunit=vu)
+        L = np.asarray(rad.planck_radiance(wave, T, wu, vu), float)
+    except Exception as e:
+        acc.violation(f'blackbody:raises:{type(e).__name__}', case, repr(e))
+        return
+    if not np.allclose(np.asarray(bb.value, float), L, rtol=1e-12, atol=0) or not np.array_equal(np.asarray(bb.wave, float), wave):
+        acc.violation('blackbody:value', case, f'Blackbody(waveunit={wu}, valueunit={vu}).value / planck_radiance = {np.asarray(bb.value, float) / L}')
+    for wu2 in ('m', 'um', 'nm', 'angstrom'):
+        lam2 = np.array([4e-7, 8e-7, 3e-6])
+        try:
+            got = np.asarray(bb.sample(lam2 / IN_M[wu2], waveunit=wu2), float)
+            want = np.asarray(rad.planck_radiance(lam2 / IN_M[wu2], T, wu2, vu), float)
+        except Exception as e:
+            acc.violation(f'blackbody:sample:raises:{type(e).__name__}', dict(case, wu2=wu2), repr(e))
+            continue
+        if not np.allclose(got, want, rtol=1e-12, atol=0):
+            acc.violation('blackbody:sample', dict(case, wu2=wu2), f'Blackbody.sample in {wu2} / planck_radiance in {wu2} = {got / want}')
+    acc.cls('blackbody')
+    acc.case(case, outcome='blackbody')
+
+
+DISPATCH['blackbody'] = chk_blackbody
+
+
 def t_planck(arg, acc):
     for wu in WNAMES:
         for vu in FNAMES:
             acc.transitions += 1
             chk_planck({'kind': 'planck', 'wu': wu, 'vu': vu, 'T': arg['T']}, acc, arg['seed'])
+            chk_blackbody({'kind': 'blackbody', 'wu': wu, 'vu': vu, 'T': arg['T']}, acc, arg['seed'])
     for wu in ('m', 'um', 'nm', 'angstrom'):
         chk_wien_sb({'kind': 'wien', 'wu': wu, 'T': arg['T']}, acc, arg['seed'])
 
@@ -450,7 +483,7 @@ def run(tier, seed, acc, procs=None):
         'bounds': {'to_depth': depth, 'temperatures': [300, 3000, 5778, 20000], 'wavelength_names': WNAMES, 'flux_names': FNAMES},
         'assumptions': ["the library's own values of h, c, k are used (the statement is about consistency)",
                         'reference Planck function in longdouble with expm1'],
-        'require': {'wave-triples': 343, 'flux-triples': 27, 'planck': 80, 'wien-sb': 16, 'vega': 12, 'refused': 10, 'to-pairs': 100, 'regrid': 40, 'arith-units': 40, 'vegamag': 20},
+        'require': {'wave-triples': 343, 'flux-triples': 27, 'planck': 80, 'wien-sb': 16, 'vega': 12, 'refused': 10, 'to-pairs': 100, 'regrid': 40, 'arith-units': 40, 'vegamag': 20, 'blackbody': 80},
     }
 
 
